@@ -266,9 +266,9 @@ func GenC20(t *rapid.T) *C20Case {
 	if sj := drawIdx(t, len(cands), "site2"); sj > si {
 		si = sj
 	}
-	g := &c20gen{t: t, target: cands[si].id, kind: kind, rawNL: drawInt(t, 0, 9, "rawnl") == 0}
+	g := &c20gen{t: t, target: cands[si].id, kind: kind, rawNL: oneIn(t, 10, "rawnl")}
 	// optional text before the root bracket (no brackets, may contain newlines)
-	if drawInt(t, 0, 2, "prefix") == 0 {
+	if oneIn(t, 3, "prefix") {
 		parts := []string{"garbage", "\n", "\n\n", " ", "x=1;", "\r\n", "// comment\n", "\t", "é\n"}
 		n := drawInt(t, 1, 5, "np")
 		for i := 0; i < n; i++ {
